@@ -15,7 +15,7 @@ META = {
             "constness, strict/relaxed/dynamic, all in-range values: constant adapts - losslessly in strict -, promotion or "
             "rejection, wrap-around, division by zero), C03_forms_match_doc / C03_incr_forms_agree / C03_form_keeps_kind "
             "(x++, x--, x += k, x -= k, x = x + k, x = x - k, unoptimized or fused into Increment, agree in value and type "
-            "in every mode), C03_negate_total and C03_lossless_is_range_check (the float64 round trip of CoerceLossless is "
+            "in every mode), C03_increment_is_add_store (the fused Increment instruction equals Load/Push/Add/Store for all values, steps and modes), C03_negate_total and C03_lossless_is_range_check (the float64 round trip of CoerceLossless is "
             "exactly the range check) are proved for all inputs over the model; six C03_old_refuted_* witnesses record the "
             "five defects repaired in tucats/ego. The model is compared with the real opcode functions on every "
             "(mode, op, kind, const) cell with boundary values on every run, the documented table is also evaluated "
@@ -184,7 +184,33 @@ def gen_program(rng, quick):
         out.append("    y%d := -x%d" % (n, n))
         out.append('    fmt.Printf("%d %%T %%v\\n", y%d, y%d)' % (n, n, n))
         exp[n] = (k, "-1.5", "-x on %s 1.5" % k)
+    out.append("    locals()")
     out.append("}")
+    # the same forms on `:=`-declared locals of a function body: with -o 3 (ego.compiler.registers) these live in
+    # register slots and go through the LoadRegister/StoreRegister emission of x++ / x-- and its own store check
+    fn = ["func locals() {"]
+    for k in au.IK + ["float32", "float64"]:
+        starts = [1.5] if k not in au.BITS else sorted({1, au.kmin(k), min(au.kmax(k), (1 << 63) - 1)})
+        for v in starts:
+            for form in FORMS:
+                n += 1
+                x = "r%d" % n
+                fn.append("    %s := %s(%s)" % (x, k, v))
+                fn.append("    " + form.replace("x", x).replace("K", "1"))
+                fn.append('    fmt.Printf("%d %%T %%v\\n", %s, %s)' % (n, x, x))
+                if k in au.BITS:
+                    exp[n] = (k, str(au.wrap(k, v + (1 if "+" in form else -1))), "local %s on %s %d" % (form.replace("K", "1"), k, v))
+                else:
+                    exp[n] = (k, "2.5" if "+" in form else "0.5", "local %s on %s 1.5" % (form.replace("K", "1"), k))
+            if k in au.BITS:
+                n += 1
+                fn.append("    r%d := %s(%d)" % (n, k, v))
+                fn.append("    q%d := -r%d" % (n, n))
+                fn.append('    fmt.Printf("%d %%T %%v\\n", q%d, q%d)' % (n, n, n))
+                exp[n] = (k, str(au.wrap(k, -v)), "local -x on %s %d" % (k, v))
+    fn.append("}")
+    i = out.index("func main() {")
+    out[i:i] = fn
     return "\n".join(out) + "\n", exp
 
 
@@ -219,7 +245,7 @@ def run(ck):
                       "with operand values drawn from {min, min+1, -2, -1, 0, 1, 2, 7, max-1, max, random}; bool/string operands "
                       "mixed with every kind; negate on every kind x const x value; Increment on every (mode, kind, step kind, "
                       "const) cell; statement forms x++ x-- x+=k x-=k x=x+k x=x-k and -x through the ego binary for every "
-                      "numeric kind in 3 modes x several -o levels. distinct_nontrivial = distinct harness cases whose two "
+                      "numeric kind, both on `var` variables of main and on `:=` locals of a function body (register slots at -o 3), in 3 modes x -o 0,2,3 (thorough 0..3). distinct_nontrivial = distinct harness cases whose two "
                       "operands differ in kind or constness, or whose result wrapped, or that ended in an error")
     ck.assume("ego.runtime.precision.error has its default value false (the precisionError() branches of data/coerce.go are not modelled)",
               "float32/float64/complex operands are outside the model (observed on the real code only)",
@@ -227,7 +253,7 @@ def run(ck):
     ck.trusted("harness/C03/c03_test.go (in-package overlay), lib/arith_util.py (generators, Python rule table, comparison)",
                "correspondence evaluated by vm_compute in generated case files")
     thms = ["C03_binop_matches_doc", "C03_forms_match_doc", "C03_incr_forms_agree", "C03_form_keeps_kind",
-            "C03_negate_total", "C03_full", "C03_lossless_is_range_check", "C03_old_refuted_negate_int8",
+            "C03_increment_is_add_store", "C03_negate_total", "C03_full", "C03_lossless_is_range_check", "C03_old_refuted_negate_int8",
             "C03_old_refuted_postinc_dynamic", "C03_old_refuted_postinc_strict", "C03_old_refuted_increment_int8",
             "C03_old_refuted_increment_strict", "C03_old_refuted_const_narrow_kinds"]
     ck.coq_stage(GROUP, theorems=thms)
@@ -287,7 +313,7 @@ def run(ck):
             ck.violation("ego-build", "ego does not build:\n" + ego[-1500:], replay={"log": ego[-3000:]}, found_input=False)
         else:
             text, exp = gen_program(ck.rng, quick)
-            runs = [(m, o) for m in au.MODES for o in ((0, 2) if quick else (0, 1, 2, 3))]
+            runs = [(m, o) for m in au.MODES for o in ((0, 2, 3) if quick else (0, 1, 2, 3))]
             if replay is not None:
                 runs = [(replay["mode"], replay["opt"])]
                 text = replay["program"]
